@@ -92,6 +92,9 @@ pub struct Obs {
     pub last_pending: bool,
     pub sleeping_for_good: bool,
     pub last_any_child_pending: bool,
+    /// a sink (not a stream) answered Pending in the last poll; a poll has happened since the channel was closed
+    pub last_sink_pending: bool,
+    pub polled_after_close: bool,
     /// for replier n: how many child events had happened when its registration was sent into the channel
     pub server_enq_at: Vec<usize>,
     /// how many child events had happened when the last executed poll began
@@ -107,7 +110,7 @@ pub fn run_scenario(events: &[&str]) -> Obs {
     let waker = wk.clone().into();
     let mut cx = Context::from_waker(&waker);
     let mut segs: Vec<String> = vec![];
-    let mut o = Obs { line: String::new(), annotated: vec![], panicked: None, spun: false, done: false, events: vec![], n_clients: 0, n_servers: 0, last_pending: false, sleeping_for_good: false, last_any_child_pending: false, closed: false, server_enq_at: vec![], last_poll_start: 0 };
+    let mut o = Obs { line: String::new(), annotated: vec![], panicked: None, spun: false, done: false, events: vec![], n_clients: 0, n_servers: 0, last_pending: false, sleeping_for_good: false, last_any_child_pending: false, last_sink_pending: false, polled_after_close: false, closed: false, server_enq_at: vec![], last_poll_start: 0 };
     let mut first = true;
     for ev in events {
         if o.done || o.panicked.is_some() { o.annotated.push(ev.split('@').next().unwrap().to_string()); continue; }
@@ -144,6 +147,8 @@ pub fn run_scenario(events: &[&str]) -> Obs {
             let mut ann = "poll".to_string();
             if !sorder.is_empty() || !korder.is_empty() { ann = format!("poll@{}@{}", if sorder.is_empty() { "-".into() } else { sorder.join(".") }, if korder.is_empty() { "-".into() } else { korder.join(".") }); }
             o.annotated.push(ann);
+            o.last_sink_pending = evs.iter().any(|e| matches!(e, Ev::SinkReady(_, A::Pending) | Ev::SinkFlush(_, A::Pending) | Ev::SinkClose(_, A::Pending)));
+            if o.closed { o.polled_after_close = true; }
             o.last_any_child_pending = evs.iter().any(|e| matches!(e, Ev::SinkReady(_, A::Pending) | Ev::SinkFlush(_, A::Pending) | Ev::SinkClose(_, A::Pending) | Ev::StreamPending(_)));
             let holders: Vec<String> = log.lock().unwrap_or_else(|e| e.into_inner()).wakers.iter().map(|(c, i, _)| who(*i, *c == 'k')).collect();
             let r = match res {
@@ -380,6 +385,11 @@ pub fn monitor(o: &Obs) -> Result<(), String> {
             }
         }
     }
+    // C16: once the registration channel is closed the router finishes whatever its streams are doing (a replier that
+    // stays silent, requests still unanswered): only a sink that cannot take data may delay it
+    if o.closed && o.polled_after_close && !o.done && o.panicked.is_none() && !o.last_sink_pending {
+        return Err("C16: the registration channel is closed and no sink is pending, yet the router did not finish when polled".into());
+    }
     // C09 / C16
     if o.sleeping_for_good && o.closed && !o.done && !o.last_any_child_pending { return Err("C16: the registration channel is closed and nothing is pending, yet the router sleeps instead of finishing".into()); }
     Ok(())
@@ -469,6 +479,9 @@ pub fn run(cfg: &Cfg) {
             // a replier whose sink is busy (Pending once / twice / while silent) while several requests are ready
             "rr +sr=PR/p,p,p,p,p +c_/i:m1,i:m2,i:m3,p,p,p poll poll poll poll", "rr +sr=PPR/p,p,p,p,p +c_/i:m1,i:m2,p,p,p poll poll poll poll poll",
             "rr +sr=PRPR/p,p,p,p,p +c_/i:m1,i:m2,p,p +c_/i:m3,i:m4,p,p poll poll poll poll poll", "rr +sf=PR/p,p,p,p +c_/i:m1,i:m2,i:m3,p,p poll poll poll poll",
+            // shutdown with requests handed to a replier that never answers (silent or merely idle), or still buffered
+            "rr +s_/p,p,p,p,p +c_/i:m1,p,p,p,p poll poll close poll poll poll", "rr +s~_/p,p,p,p +c_/i:m1,i:m2,p,p,p poll poll close poll poll",
+            "rr +s_/p,p,p,p,p +c_/i:m1,p,p,p +c_/i:m2,p,p,p poll close poll poll poll", "rr +sr=P/p,p,p,p +c_/i:m1,p,p,p poll close poll poll poll",
             "rr +s_/p +c_/p close poll poll poll", "rr +c_/i:m1,p close poll poll", "rr close poll", "rr +s~_/p +c_/p poll +c_/i:m5,p poll poll poll",
         ] { cases.push(c.to_string()); }
         // bursts of registrations drained in one poll (more than any per-poll allowance a router might have), idle
